@@ -208,7 +208,33 @@ def w_surface(arg):
     return acc.res()
 
 
+def seq_thunks(tag=None):
+    """aliasing inputs: identical velocity field bits under subtypes 1, 2, 3, 4; the same message twice; a surface frame."""
+    th = []
+    for st in (1, 2, 3, 4):
+        f = (st, 1, 300, 0, 200, 1, 0, 20, 0, 9)
+        msg = F.es(me19(*f), 0x406B90, 5, 17)
+        th.append(("tc19_subtype%d" % st, (lambda m=msg, f=f: judge19(m, expect19(*f[:8]), dexp_of(f[8], f[9])))))
+    f = (2, 0, 2, 0, 2, 0, 0, 16, 1, 126)
+    msg = F.es(me19(*f), 0x4840D6, 5, 18)
+    th.append(("tc19_subtype2_slow", (lambda m=msg, f=f: judge19(m, expect19(*f[:8]), dexp_of(f[8], f[9])))))
+    sm = F.es(F.me(7, [(6, 7, 124), (13, 1, 1), (14, 7, 100)]), 0x406B90, 5, 17)
+    th.append(("surface_mov124", (lambda m=sm: judge_surface(m, 124, 1, 100))))
+    sm2 = F.es(F.me(5, [(6, 7, 1), (13, 1, 0), (14, 7, 0)]), 0x406B90, 5, 17)
+    th.append(("surface_stopped", (lambda m=sm2: judge_surface(m, 1, 0, 0))))
+    return th
+
+
+def w_seqx(depth):
+    from engine.util import explore_sequences
+    acc = Acc()
+    explore_sequences(acc, seq_thunks(), depth, "velocity")
+    return acc.res()
+
+
 def w_any(t):
+    if t[0] == "q":
+        return w_seqx(t[1])
     return w_surface(t[1]) if t[0] == "s" else w19(t[1])
 
 
@@ -233,12 +259,17 @@ def run(ctx):
     for tc in (5, 6, 7, 8):
         for c in chunks(range(128), 16):
             tasks.append(("s", (tc, list(c))))
+    tasks.append(("q", 4 if ctx.thorough else 3))
     ctx.pmap(w_any, tasks)
     ctx.cov["exhaustive"] = bool(ctx.thorough)
     ctx.samples.append({"tc19": F.es(me19(1, 0, 10, 1, 20, 1, 0, 30, 0, 9)), "fields": "st=1 ew=+9 ns=-19 vr=+1856 baro diff=+200"})
 
 
 def replay(case):
+    if case["kind"] == "seqx":
+        from engine.util import replay_sequence
+        s = replay_sequence(seq_thunks(), case["sequence"])
+        return [(s, case)] if s else []
     if case["kind"] == "surface":
         s = judge_surface(case["msg"], *case["fields"])
     else:
